@@ -2,7 +2,9 @@ package props
 
 import (
 	"astverif/ownership"
+	"astverif/report"
 	"go/types"
+	"strings"
 
 	"astverif/layout"
 	"astverif/lin"
@@ -19,8 +21,28 @@ func c14(c *Ctx) {
 	r.Trusted = []string{"go/types + go/ssa", "astikit BitsWriter summary", "EN 300 468 tag values"}
 	tables.T2(c.P, r)
 	// input side: every descriptor accounts for exactly its declared length (engine C, rule P6)
-	n := importRules(r, engineC(c), "P6")
+	ec := engineC(c)
+	n := importRules(r, ec, "P6")
 	r.Floor("P6", "declared-end loops", n, 1)
+	// "a malformed descriptor body never shifts the parsing of what follows": a body decoder that asks the iterator for a
+	// negative or unguarded number of bytes ends the whole table with a panic — the fetch/seek/skip sites (P1 of C03) of
+	// descriptor.go
+	np := 0
+	for _, o := range ec.Obls {
+		if o.Rule == "P1" && strings.HasPrefix(o.Pos, "descriptor.go:") {
+			key := o.Key[len(o.Rule)+1:]
+			switch o.Status {
+			case report.Discharged:
+				r.OK(o.Rule, key, o.Pos, o.Detail)
+			case report.Violated:
+				r.Bad(o.Rule, key, o.Pos, o.Detail)
+			default:
+				r.Unknown(o.Rule, key, o.Pos, o.Detail)
+			}
+			np++
+		}
+	}
+	r.Floor("P1", "fetch/seek/skip sites in descriptor.go", np, 25)
 	ck := layout.New(c.P)
 	pairs, err := descriptorPairs(c)
 	if err != nil {
